@@ -106,6 +106,8 @@ Case generate(vf::Src& src, const std::string& mode)
     int n = ex ? std::atoi(mode.c_str() + 2) : src.irange(1, 20);
     for (int i = 0; i < n; ++i)
     {
+        if (!ex && src.skip())
+            continue; // lets the shrinker drop operations
         Op op;
         if (ex)
         {
